@@ -203,7 +203,15 @@ def doRun (a : Json) : Except String Json := do
   let env := mkEnv t t.popFirst
   let envAlt := mkEnv t (!t.popFirst)
   let known ← (← getArrD a "known").toList.mapM decodeKnown
-  let c ← decodeCluster (← J.getObj a "cluster")
+  let submitted ← decodeCluster (← J.getObj a "cluster")
+  -- the admission chain: Admit, then Validate; everything below is about the admitted object
+  let c := admit submitted
+  let op : Operation := match (J.getStr a "op").toOption with
+    | some "update" => .update
+    | _ => .create
+  let oldObj ← match J.optObj a "prev" with
+    | none => pure none
+    | some pj => do pure (some (← decodeCluster pj))
   let k := classes env c
   let createLocal := createClusterInfo env false c
   let createRemote := createClusterInfo env true c
@@ -225,13 +233,17 @@ def doRun (a : Json) : Except String Json := do
   pure <| J.obj [
     ("core", encodeValidate (validateUpstreamCluster env c)),
     ("coreAlt", encodeValidate (validateUpstreamCluster envAlt c)),
-    ("validate", encodeValidate (validate env known c)),
-    ("validateAlt", encodeValidate (validate envAlt known c)),
+    ("admitted", Json.arr (c.policies.map fun p => J.hex p.strategy).toArray),
+    ("validate", encodeValidate (validateAdmission env known op oldObj c)),
+    ("validateAlt", encodeValidate (validateAdmission envAlt known op oldObj c)),
     ("valid", J.bool (valid env known c)),
     ("usable", J.bool (usable env c)),
     ("classes", J.obj [("endpoints", J.bool k.endpoints), ("oneScheme", J.bool k.oneScheme),
       ("clientTLS", J.bool k.clientTLS), ("serving", J.bool k.serving), ("flowControl", J.bool k.flowControl),
-      ("names", J.bool k.names), ("policyRefs", J.bool k.policyRefs)]),
+      ("names", J.bool k.names), ("policyRefs", J.bool k.policyRefs),
+      ("meta", J.bool (c.metaErrs = [])), ("clientLimits", J.bool (clientLimitsOK c.clientConfig)),
+      ("form", J.bool (formOK c)), ("featureGate", J.bool (featureGateOK env c)),
+      ("noConflict", J.bool (noConflict env known c))]),
     ("createLocal", outcome createLocal),
     ("createRemote", outcome createRemote),
     ("sizes", sizesOf createLocal),
